@@ -192,7 +192,10 @@ def step (c impl : String) : String :=
             else if cl = "X" then some (s!"returned object outside the universe: engine={k} object={o}", false)
             else match (if !usesCheck then none else taintDiag w cs.maxDepth o true) with
               | some f => some (s!"inherited {f}: engine={k} returned {o} (oracle={cl}) through a tainted confirming Check", true)
-              | none => some (s!"returned object is not permitted: engine={k} object={o} oracle={cl}", false))
+              | none =>
+                if eng = "w" && isTypedWildcard w.req.user && !w.ctxTuples.isEmpty then
+                  some (s!"weighted engine answers a wildcard subject from a contextual tuple of another user (empty user filter): engine={k} object={o} oracle={cl}", false)
+                else some (s!"returned object is not permitted: engine={k} object={o} oracle={cl}", false))
           let over := match lim with
             | some l => if out.eraseDups.length > l then [(s!"more than limit objects: engine={k} limit={l} out={v}", false)] else []
             | none => []
